@@ -17,7 +17,18 @@ ASSUMPTIONS = ["a clean stop and restart = stop(), a new gateway object with the
                "(threading.Timer replaced by an inert fake; asyncio flavour: load + one save inline)",
                "the text demands silence when no id can be allocated; it does not demand an answer whenever one could be "
                "(the library stops at max(known)+1 > 254 although lower ids may be free): counted, not judged"]
-THEOREMS_DOC = {}
+THEOREMS_DOC = {
+    'C06_id_response_fresh': 'an id response carries print nid with 1<=nid<=254, nid unknown before, known after, above every known id; the node is appended at once',
+    'C06_logic_id_request': 'through the dispatcher an accepted id request runs handle_id_request on the current state, then only routes the reply',
+    'C06_keys_in_range': 'every reachable state has node ids in 0..255',
+    'C06_keys_monotone': 'no step of any history removes a known node id',
+    'C06_id_of_line_sound': 'the ghost id of a line is the payload of the id response handle_id_request builds',
+    'C06_id_of_line_complete': 'no ghost id on an accepted id request means handle_id_request answers nothing and changes nothing',
+    'C06_ids_never_twice': 'over all histories with saves and (persistent) restarts the ids handed out are pairwise distinct, strictly increasing, in 1..254',
+    'C06_id_fresh_in_history': 'in every reachable state the next id handed out is in 1..254, unknown before, above all known ids, known afterwards',
+    'C06_exhaustion_silent': 'a known id >= 254 makes handle_id_request return the unchanged state and no response',
+    'C06_exhaustion_silent_logic': '... and the dispatcher then returns the unchanged state and no reply',
+    'C06_restart_keeps_reservations': 'with persistence a clean stop/restart keeps the whole list of known/reserved ids'}
 SCOPE = ["S", "tree"]
 MONITORS = ["c06"]
 
